@@ -32,6 +32,7 @@ FLOORS = {
     'C16.E4.sites': 4,
     'C17.K1.composites': 6,
     'C04.M0.ops': 14,
+    'C02.U1.resources': 100,
     'C17.K3.bodies': 40,
 }
 
